@@ -127,6 +127,8 @@ def run(prog, tier):
             def refresh_arm(node, env_):
                 # a memoising branch (its body stores attributes of self) is followed on its refreshing arm; that the stale
                 # arm is only taken for the same argument is the business of the cache-key obligation below
+                if not isinstance(node, ast.If):
+                    return "unsupported"
                 stores = any(isinstance(t, ast.Attribute) and isinstance(t.ctx, ast.Store) and U(t.value) == "self"
                              for st_ in node.body for t in ast.walk(st_))
                 return "body" if stores else "unsupported"
